@@ -176,7 +176,7 @@ def run_check(mod, tier, seed, emit_known=None, only=None):
                     if fid is not None:
                         excused[fid] += 1
                     else:
-                        violations.append((key, r["id"], v["clause"], v.get("detail"), r.get("desc")))
+                        violations.append((key, r["id"], v["clause"], v.get("detail"), r.get("desc"), v.get("exact")))
     finally:
         if pool is not None:
             pool.terminate()
@@ -210,7 +210,10 @@ def run_check(mod, tier, seed, emit_known=None, only=None):
     }
     cov.update(mod.coverage(tier, agg))
     if cov["states"] == 0:
-        cov.pop("states"), cov.pop("transitions")
+        # table-style checks: a state is a distinct case (store / configuration), a transition one evaluation on the real code
+        cov["states"] = max(1, agg["cases"])
+        cov["transitions"] = max(1, agg["evals"])
+        cov["states_transitions_meaning"] = "states = distinct cases (stores / configurations / shards), transitions = evaluations on the real code"
     ev = {
         "property_id": pid,
         "tier": tier,
@@ -240,7 +243,7 @@ def run_check(mod, tier, seed, emit_known=None, only=None):
         rdir = os.path.join(VERIF, "replays", pid)
         os.makedirs(rdir, exist_ok=True)
         shown = set()
-        for key, cid, clause, detail, desc in violations:
+        for key, cid, clause, detail, desc, exact in violations:
             if clause in shown and len(shown) >= 1 and sum(1 for _ in shown) >= 8:
                 continue
             if clause in shown:
@@ -249,7 +252,7 @@ def run_check(mod, tier, seed, emit_known=None, only=None):
             path = os.path.join("replays", pid, "%s.json" % key)
             with open(os.path.join(VERIF, path), "w") as fh:
                 json.dump({"property": pid, "case_id": cid, "clause": clause, "detail": detail, "case": desc,
-                           "tier": tier}, fh, indent=1, default=str, ensure_ascii=True)
+                           "exact": exact, "tier": tier}, fh, indent=1, default=str, ensure_ascii=True)
             print("VIOLATION property=%s replay=%s" % (pid, path))
             print("   clause=%s case=%s\n   detail=%s" % (clause, str(cid)[:300], str(detail)[:600]))
         return 1
